@@ -23,7 +23,7 @@ import (
 
 // "à" (C3 A0) and "Å" (C3 85) are multi-byte runes whose continuation byte,
 // read as a Latin-1 code point, is a white-space character (NBSP, NEL).
-var c07Symbols = []string{"a", "\"", "\\", " ", "-", "*", "(", ")", ":", "@", ",", "/", "O", "R", "\xff", "à", "Å"}
+var c07Symbols = []string{"a", "\"", "\\", " ", "-", "*", "(", ")", ":", "@", ",", "/", "O", "R", "\xff", "à", "Å", ".", "="}
 
 // bareOK reports whether s may be written as an unquoted word according to
 // the documented grammar: bareWord = [^-*"():@,][^ ():@,]*, no white space,
@@ -133,7 +133,9 @@ func c07CheckString(s string) string {
 		}
 	}
 	// --- s as a key ---
-	if s == "" || s[0] == '.' {
+	if s == "" || s == ".name" || s == ".fullname" || s == ".config" || s == ".unit" {
+		// the empty key is rejected by design; the four special keys denote something else; every other key —
+		// also one that begins with a dot, such as the tool-set ".file" — is a configuration key
 		return ""
 	}
 	mk := func(val string) *benchfmt.Result { return resWith(s, val) }
